@@ -602,9 +602,22 @@ def features_on_every_derivative(ctx: Ctx) -> None:
                     a, b = fa.get(None), fb.get(None)
                     a1 = [fa.get(i) for i in range(T)]
                     b1 = [fb.get(i) for i in range(T)]
+                    # ... and once more through the SAME bound objects (a second pass over the steps, as a second evaluation of
+                    # a hedger that keeps its features bound would make): what was read at later steps must not come back at earlier ones
+                    a2 = [fa.get(i) for i in range(T)]
+                    b2 = [fb.get(i) for i in range(T)]
                 except Exception:
                     unavailable += 1
                     continue
+                if a1[0].dim() == 3:
+                    first, second, secondb = torch.cat(a1, dim=1), torch.cat(a2, dim=1), torch.cat(b2, dim=1)
+                    cutmask = (torch.arange(second.size(1))[None, :] <= cut[:, None])[:, :, None].expand_as(second) if second.size(1) == T else None
+                    stale = (first != second) & ~(first.isnan() & second.isnan())
+                    ahead = ((second != secondb) & ~(second.isnan() & secondb.isnan()) & cutmask) if cutmask is not None and second.shape == secondb.shape else torch.zeros_like(stale)
+                    if bool(stale.any()) or bool(ahead.any()):
+                        i = int((stale | ahead).any(dim=(1, 2)).nonzero()[0])
+                        ctx.violation(f"feature-on:{dname}:{f}:second-pass", f"feature {f} of a {dname} stepped a second time through the same bound object: the values differ from the first pass "
+                                      "(something read at later steps came back at earlier ones)", {"mA": ps[i]["mA"], "cut": ps[i]["cut"], "first_pass": first[i].flatten().tolist(), "second_pass": second[i].flatten().tolist()})
                 available += 1
                 ctx.count(("feature-on", dname, f, T), n=len(ps))
                 Tn = a.size(1)
